@@ -1,6 +1,9 @@
 package zog
 
 import (
+	"fmt"
+	"math"
+
 	"github.com/Oudwins/zog/conf"
 	p "github.com/Oudwins/zog/internals"
 	"github.com/Oudwins/zog/zconst"
@@ -58,7 +61,11 @@ func Float32(opts ...SchemaOption) *NumberSchema[float32] {
 				return nil, err
 			}
 			if n, ok := x.(float64); ok {
-				return float32(n), nil
+				f := float32(n)
+				if math.IsInf(float64(f), 0) && !math.IsInf(n, 0) {
+					return nil, fmt.Errorf("failed to coerce to float32: %v is out of range", n)
+				}
+				return f, nil
 			}
 			return x, nil
 		},
@@ -107,6 +114,9 @@ func Int32(opts ...SchemaOption) *NumberSchema[int32] {
 				return nil, err
 			}
 			if n, ok := x.(int); ok {
+				if n < math.MinInt32 || n > math.MaxInt32 {
+					return nil, fmt.Errorf("failed to coerce to int32: %v is out of range", n)
+				}
 				return int32(n), nil
 			}
 			return x, nil
